@@ -188,7 +188,11 @@ def _v2(ctx, rep):
                 prop, kind, tname = fields[fld]
                 od = kwarg(v, "objdict")
                 od_name = od.id if isinstance(od, ast.Name) else None
-                od = defs.get(od.id) if isinstance(od, ast.Name) else od
+                if isinstance(od, ast.Name):
+                    # the dictionary's own binding (entries replaced afterwards are applied below)
+                    bs = [n for n in own_nodes(f.node) if isinstance(n, ast.Assign) and len(n.targets) == 1 and isinstance(n.targets[0], ast.Name)
+                          and n.targets[0].id == od.id]
+                    od = bs[0].value if len(bs) == 1 else None
                 if isinstance(od, ast.Dict) and all(isinstance(k, ast.Constant) for k in od.keys):
                     od = ast.Call(func=ast.Name(id="dict", ctx=ast.Load()), args=[],
                                   keywords=[ast.keyword(arg=k.value, value=x) for k, x in zip(od.keys, od.values)])
